@@ -230,6 +230,14 @@ def main():
         h.rev("cancel_ask", "seller", A1.replace("-", ""), probe=True).rev("expire_ask", "exec", A2, probe=True)
         h.match("exec", A2, V2A, "2", 20).rev("reject_bid", "exec", V2A, 10).rev("cancel_bid", "buyer", V2A)
         h.match("exec", A2, V2C, "2", 10).rev("reject_bid", "exec", V2B, 10).rev("cancel_bid", "buyer2", V2B).write()
+    h = H("c00_numbers_beyond_u128", "numerals at and beyond 2^128-1 in every numeric field").env(markers={"base": "R"})
+    h.inst(quotes=("q", "base"))
+    BIG = 2 ** 128
+    h.create_ask("seller", [], A1, "base", "q", "2", BIG).create_ask("seller", [], A1, "base", "q", "2", BIG - 1) \
+        .create_ask("seller", [], A2, "base", "q", "2", 10 ** 43).rev("reject_ask", "exec", A1, BIG) \
+        .create_bid("buyer", [(BIG, "q")], B1, None, "1", "q", 5, 5).create_bid("buyer", [(5, "q")], B1, None, "1", "q", BIG, 5) \
+        .create_bid("buyer", [(5, "q")], B1, (BIG, "q"), "1", "q", 5, 5).match("exec", A1, B1, "2", BIG) \
+        .approve("appr", [], A1, "base", BIG).rev("cancel_ask", "seller", A1).write()
     # known numeric classes (recorded findings): witnesses live in corpus/known/
     H("k_inexact_match", "K_inexact: precision 18, increment 1e18, price 0.999999999999999999, size 1e18+1").env() \
         .inst(precision=18, increment=10 ** 18) \
